@@ -1219,6 +1219,37 @@ def h_open(h, sync):
                             % (hc.cid, 3 + 2 * len(h.conns)))
 
 
+def h_stray(h, k):
+    """the server side device sends a CONNECT to the address of the client
+    end of connection k: an established connection is no listener, the
+    CONNECT is refused (DM) and the connection goes on undisturbed"""
+    hc = h.pick(k)
+    if hc is None or h.cl in hc.c.closed or h.cl in hc.c.eof or \
+            getattr(h, "nstray", 0) >= 3:
+        return
+    h.nstray = getattr(h, "nstray", 0) + 1
+    try:
+        addr = hc.c.sock[h.cl].getsockname()
+    except nfc.llcp.Error:
+        return
+    if addr is None:
+        return
+    s = h.pair.socket(h.sv, DATA_LINK_CONNECTION)
+
+    def stray():
+        try:
+            s.connect(addr)
+        except nfc.llcp.Error:
+            pass
+        try:
+            s.close()
+        except nfc.llcp.Error:
+            pass
+    h.boxes.append(h.pair.call(stray, "stray-%d" % h.nstray))
+    h.once("stray-connect-to-established-socket")
+    h_progress(h)
+
+
 def h_close(h, k, role, sync):
     hc = h.pick(k)
     side = h.side(role)
@@ -1328,6 +1359,9 @@ def h_step(h, op):
             h.boxes.append(h.pair.call(srv.close, "close-listener"))
             h_progress(h)
         return
+    if name == "stray":
+        h_stray(h, op[1])
+        return
     if name == "open":
         if getattr(h, "listener_closed", False):
             return
@@ -1433,6 +1467,8 @@ def history_case(draw, max_ops):
         for _ in range(draw(st.integers(0, 5))):
             # mostly the newest connection, sometimes an older one
             kk = k if draw(st.integers(0, 3)) else draw(st.integers(0, 9))
+            if draw(st.integers(0, 9)) == 0:
+                ops.append(["stray", kk])
             for t in draw(st.sampled_from(TALK)).split():
                 if t[0] == "x":
                     ops.append(["x", xmap[t[1]]])
@@ -1647,7 +1683,10 @@ LEGS = [
              "non-blocking send (sizes around the connection MIU) / recv on "
              "either end, a blocking read-until-end thread, single "
              "exchanges, 'exchange until quiet and compare' steps; either "
-             "end closes first, the other end at once, later or never; "
+             "end closes first, the other end at once, later or never; up to "
+             "three stray CONNECTs from the server device to the address of "
+             "an established client socket (refused, the connection goes "
+             "on); "
              "link MIU, connection MIU, RW in {1,2,3,15}, aggregation, "
              "backlog 1-3, client side drawn. Judged per connection: recv() "
              "results are a prefix of that connection's accepted messages "
